@@ -77,4 +77,13 @@ CLAIMED = {
         '(z3 FP theory) for the zero-norm corner.',
    note='Trusted: R arithmetic for arrays, tree_map leafwise, jit = identity + donation, norm homogeneity, tree_l2_squared is the '
         'squared norm; order independence is commutativity of + (not a separate obligation). Not covered: rounding error size.'),
+ 'C05': dict(
+   text='Proof, from the real MeanStat/SumStat bodies, of the monoid laws on the metric domain (sanitisation, closure, commutativity, '
+        'associativity, two-sided identity, result = weighted mean or 0), of reduce being additive over rows for in-domain rows '
+        '(inductive lemma), of evaluate_batch = reduce over rows of (mask ? single-example stat : zero) whatever padded rows contain, '
+        'of _evaluate_model_step (own mask or all-True default, merge with the previous stat) and evaluate_model = fold from zero(); '
+        'zero() of each built-in metric is the identity of the Stat type its evaluate_example returns; safe_div NaN-freedom in IEEE float32; '
+        'bool-typed weights are promoted by new() (DTYPE tracking).',
+   note='Trusted: vmap pointwise, tree_map over Stat fields, SUMROWS additivity and sum of zeros, R arithmetic. '
+        'PerDomainMetric/ConfusionMatrix zeros and user metrics: bounded native check only (on violation/replay).'),
 }
